@@ -27,6 +27,10 @@ const N: u64 = 300;
 const DAY: u64 = 24 * 60 * 60;
 
 struct Ctx {
+    sw: u64,
+    pw: u64,
+    /// days passed since `init`
+    adv: u64,
     store: Arc<InMemoryStore>,
     worker: VerifWorker,
     handle: MockedP2pHandle,
@@ -46,6 +50,12 @@ fn show_ranges(rs: &[std::ops::RangeInclusive<u64>]) -> String {
     } else {
         rs.iter().map(|r| format!("{}-{}", r.start(), r.end())).collect::<Vec<_>>().join(",")
     }
+}
+
+/// window of `days` days (+ 12 h) after `adv` days have passed: the worker only ever compares
+/// header times with `now - window`, so shrinking the window is letting time pass
+fn window(days: u64, adv: u64) -> Duration {
+    Duration::from_secs(days.saturating_sub(adv) * DAY + DAY / 2)
 }
 
 fn show_opt(o: Option<u64>) -> String {
@@ -86,10 +96,15 @@ impl C25 {
 
     fn fetch(&mut self, keep: bool) -> String {
         let ctx = self.ctx.as_mut().unwrap();
+        let pool = &self.pool;
         self.rt.block_on(async {
             let st = ctx.store.get_stored_header_ranges().await.unwrap();
             let pr = ctx.store.get_pruned_ranges().await.unwrap();
-            let view = format!("st={} pr={}", show_ranges(st.as_ref()), show_ranges(pr.as_ref()));
+            // the window edge from the REAL header times and the REAL clock: highest height whose
+            // header is not after `now - sampling_window` (what `in_sampling_window` computes)
+            let cutoff = (Time::now() - window(ctx.sw, ctx.adv)).unwrap_or_else(|_| Time::unix_epoch());
+            let edge = pool.iter().filter(|h| h.time() <= cutoff).map(|h| h.height()).max().unwrap_or(0);
+            let view = format!("st={} pr={} edge={edge}", show_ranges(st.as_ref()), show_ranges(pr.as_ref()));
             let before = ctx.worker.ongoing();
             if let Err(e) = ctx.worker.fetch_next_batch().await {
                 return format!("fatal {e}");
@@ -148,7 +163,8 @@ impl Prop for C25 {
          windows, batch sizes 1..300 and network heads; natural syncing (fetchkeep + deliver), foreign insertions, \
          pruning of the header bounding the batch (h=htail), of the store tail, of random stored heights and of \
          whole prefixes, sampling of ranges, slow-sync heights, peer loss, head bumps; a `fetch` after every few \
-         mutations, all through the real Worker::fetch_next_batch (observed at ongoing_batch.range, on the wire \
+         mutations, days passing between any two operations (advance: header ages grow between request and response), \
+         all through the real Worker::fetch_next_batch (observed at ongoing_batch.range, on the wire \
          and as FetchingHeadersStarted).  Non-trivial = a fetch/fetchkeep/deliver op of a history in which at \
          least one header was pruned or a header older than the sampling window is stored; distinct = distinct \
          (op, result) lines."
@@ -168,6 +184,22 @@ impl Prop for C25 {
             out.op("fetchkeep", "directed/fetchkeep", true);
             out.op("deliver ok=1", "directed/deliver", true);
             out.op("state", "directed/state", false);
+            out.op("reset", "reset", false);
+        }
+        // time passes between the request and its response, and between prunings and decisions
+        for (sw, bs, adv) in [(100u64, 30u64, 30u64), (100, 50, 1), (60, 16, 200), (150, 64, 10)] {
+            out.op(format!("init n={N} sw={sw} pw={} bs={bs} h0={N}", sw + 1), "ageing/init", false);
+            out.op("fetchkeep", "ageing/fetchkeep", true);
+            out.op("deliver ok=1", "ageing/deliver", true);
+            out.op("fetchkeep", "ageing/fetchkeep", true);
+            out.op(format!("advance d={adv}"), "ageing/advance", true);
+            out.op("deliver ok=1", "ageing/deliver-after-ageing", true);
+            out.op("fetch", "ageing/fetch-after-ageing", true);
+            out.op("prune h=htail", "ageing/prune-bound", true);
+            out.op("fetch", "ageing/fetch-pruned-bound", true);
+            out.op(format!("advance d={adv}"), "ageing/advance", true);
+            out.op("fetch", "ageing/fetch", true);
+            out.op("state", "ageing/state", false);
             out.op("reset", "reset", false);
         }
         let scenarios = if tier == Tier::Thorough { 4000 } else { 220 };
@@ -225,11 +257,15 @@ impl Prop for C25 {
                     }
                     85..=88 => out.op(format!("peers n={}", rng.below(3)), "peers", false),
                     89..=92 => out.op(format!("head h={}", rng.range(1, N)), "head", false),
-                    93..=95 => out.op(
+                    93..=94 => out.op(
                         format!("bs n={}", *rng.pick(&[1, 4, 10, 33, 64, 200, 512])),
                         "bs",
                         false,
                     ),
+                    95..=97 => {
+                        out.op(format!("advance d={}", *rng.pick(&[1, 1, 2, 5, 10, 30, 100])), "advance", true);
+                        interesting = true;
+                    }
                     _ => out.op("state", "state", false),
                 }
             }
@@ -271,13 +307,13 @@ impl Prop for C25 {
                     &p2p,
                     store.clone(),
                     bs,
-                    Duration::from_secs(sw * DAY + DAY / 2),
-                    Duration::from_secs(pw * DAY + DAY / 2),
+                    window(sw, 0),
+                    window(pw, 0),
                 );
                 w.set_subjective_head_height(h0);
                 w.init_broadcast(head);
                 handle.set_peers(1, 1);
-                Ctx { store, worker: w, handle, events, _p2p: p2p }
+                Ctx { sw, pw, adv: 0, store, worker: w, handle, events, _p2p: p2p }
             });
             self.ctx = Some(ctx);
             return "ok".into();
@@ -334,6 +370,13 @@ impl Prop for C25 {
             "bs" => {
                 let Some(n) = arg_u64(line, "n") else { return "bad-op".into() };
                 self.ctx.as_mut().unwrap().worker.set_batch_size(n);
+                "ok".into()
+            }
+            "advance" => {
+                let Some(d) = arg_u64(line, "d") else { return "bad-op".into() };
+                let ctx = self.ctx.as_mut().unwrap();
+                ctx.adv += d;
+                ctx.worker.set_windows(window(ctx.sw, ctx.adv), window(ctx.pw, ctx.adv));
                 "ok".into()
             }
             "fetch" => self.fetch(false),
